@@ -379,11 +379,12 @@ func (g *gen) report() txgen.Tx {
 	locker := keys.Address{}
 	if t != nil {
 		locker = t.Owner
+	} else if pend != nil {
+		locker = g.w.G.U.Users[pend.Owner].Addr
 	} else {
 		for _, s := range g.subs {
 			if s.Name == name {
 				locker = g.w.G.U.Users[s.Owner].Addr
-				break
 			}
 		}
 	}
